@@ -505,6 +505,43 @@ pub mod libc {
 
     pub const ESTALE: i32 = 116;
 
+    // the Linux errno values a change to the crate may plausibly mention (plain numbers; nothing is assumed about them)
+    pub const EPERM: i32 = 1;
+
+    pub const ENOENT: i32 = 2;
+
+    pub const EINTR: i32 = 4;
+
+    pub const EIO: i32 = 5;
+
+    pub const EAGAIN: i32 = 11;
+
+    pub const EACCES: i32 = 13;
+
+    pub const EBUSY: i32 = 16;
+
+    pub const EEXIST: i32 = 17;
+
+    pub const EXDEV: i32 = 18;
+
+    pub const ENOTDIR: i32 = 20;
+
+    pub const EISDIR: i32 = 21;
+
+    pub const EINVAL: i32 = 22;
+
+    pub const EMFILE: i32 = 24;
+
+    pub const ENOSPC: i32 = 28;
+
+    pub const EROFS: i32 = 30;
+
+    pub const EMLINK: i32 = 31;
+
+    pub const ENOTEMPTY: i32 = 39;
+
+    pub const EDQUOT: i32 = 122;
+
     pub const LOCK_SH: i32 = 1;
 
     pub const LOCK_EX: i32 = 2;
@@ -1109,6 +1146,36 @@ pub mod std {
                 unimplemented!()
             }
 
+            /// open(path, O_WRONLY|O_CREAT|O_TRUNC).  PROTOCOL: values become visible by rename/link only; a file that is
+            /// created, truncated or opened for writing BY NAME must be one no lookup can see.
+            #[verifier::external_body]
+            pub fn create(p: &Path, Tracked(w): Tracked<&mut World>) -> (r: std::io::Result<File>)
+                requires
+                    old(w).inv(),
+                    old(w).may_write_open(pv(p)),   // @L C01 C02 C03 C19 C15 C16:a-file-is-never-created-or-opened-for-writing-under-a-name-a-lookup-can-see
+                ensures
+                    final(w).stepped(*old(w)),
+                    final(w).inv(),
+                    final(w).now == old(w).now,
+                    final(w).listed == old(w).listed,
+                    final(w).opens == old(w).opens + 1,
+                    final(w).published == old(w).published,
+                    final(w).owned == old(w).owned,
+                    final(w).supplied == old(w).supplied,
+                    match r {
+                        Ok(f) => {
+                            &&& f.can_write()
+                            &&& f.offset() == 0
+                            &&& final(w).hard_faults == old(w).hard_faults
+                            &&& final(w).write_opened(*old(w), pv(p), f.ino())
+                            &&& final(w).inodes[f.ino()].content == Seq::<u8>::empty()
+                        },
+                        Err(e) => final(w).same_fs(*old(w)) && final(w).hard_faults == old(w).hard_faults + 1,
+                    },
+            {
+                unimplemented!()
+            }
+
             /// fchmod(fd, mode).  PROTOCOL (C03 C19): write permission is never added to an inode that a visible
             /// name binds (here: the inode must have no link in a cache namespace unless the new mode is read-only).
             #[verifier::external_body]
@@ -1245,6 +1312,115 @@ pub mod std {
                             &&& !m.view().is_dir
                         },
                         Err(e) => final(w).hard_faults == old(w).hard_faults + 1,
+                    },
+            {
+                unimplemented!()
+            }
+        }
+
+        /// `OpenOptions`: only the flags matter that decide whether the file may be created or written.
+        pub struct OpenOptions {
+            pub ghost_write: bool,
+        }
+
+        impl OpenOptions {
+            #[verifier::external_body]
+            pub fn new() -> (r: OpenOptions)
+                ensures
+                    !r.ghost_write,
+            {
+                unimplemented!()
+            }
+
+            #[verifier::external_body]
+            pub fn read(&mut self, on: bool) -> (r: &mut OpenOptions)
+                ensures
+                    r.ghost_write == old(self).ghost_write,
+                    *final(self) == *final(r),
+            {
+                unimplemented!()
+            }
+
+            #[verifier::external_body]
+            pub fn write(&mut self, on: bool) -> (r: &mut OpenOptions)
+                ensures
+                    r.ghost_write == (old(self).ghost_write || on),
+                    *final(self) == *final(r),
+            {
+                unimplemented!()
+            }
+
+            #[verifier::external_body]
+            pub fn append(&mut self, on: bool) -> (r: &mut OpenOptions)
+                ensures
+                    r.ghost_write == (old(self).ghost_write || on),
+                    *final(self) == *final(r),
+            {
+                unimplemented!()
+            }
+
+            #[verifier::external_body]
+            pub fn truncate(&mut self, on: bool) -> (r: &mut OpenOptions)
+                ensures
+                    r.ghost_write == (old(self).ghost_write || on),
+                    *final(self) == *final(r),
+            {
+                unimplemented!()
+            }
+
+            #[verifier::external_body]
+            pub fn create(&mut self, on: bool) -> (r: &mut OpenOptions)
+                ensures
+                    r.ghost_write == (old(self).ghost_write || on),
+                    *final(self) == *final(r),
+            {
+                unimplemented!()
+            }
+
+            #[verifier::external_body]
+            pub fn create_new(&mut self, on: bool) -> (r: &mut OpenOptions)
+                ensures
+                    r.ghost_write == (old(self).ghost_write || on),
+                    *final(self) == *final(r),
+            {
+                unimplemented!()
+            }
+
+            /// open(path, flags).  With none of write/append/truncate/create set this is `File::open`; otherwise the
+            /// protocol precondition of `File::create` applies and the result is only known to be valid.
+            #[verifier::external_body]
+            pub fn open(&self, p: &Path, Tracked(w): Tracked<&mut World>) -> (r: std::io::Result<File>)
+                requires
+                    old(w).inv(),
+                    self.ghost_write ==> old(w).may_write_open(pv(p)),   // @L C01 C02 C03 C19 C15 C16:a-file-is-never-created-or-opened-for-writing-under-a-name-a-lookup-can-see
+                ensures
+                    final(w).stepped(*old(w)),
+                    final(w).inv(),
+                    final(w).now == old(w).now,
+                    final(w).listed == old(w).listed,
+                    final(w).opens == old(w).opens + 1,
+                    final(w).published == old(w).published,
+                    final(w).owned == old(w).owned,
+                    final(w).supplied == old(w).supplied,
+                    match r {
+                        Ok(f) => {
+                            &&& f.can_write() == self.ghost_write
+                            &&& final(w).hard_faults == old(w).hard_faults
+                            &&& if self.ghost_write {
+                                final(w).write_opened(*old(w), pv(p), f.ino())
+                            } else {
+                                &&& f.offset() == 0
+                                &&& old(w).files.contains_key(pv(p)) && f.ino() == old(w).files[pv(p)]
+                                &&& final(w).files == old(w).files && final(w).dirs == old(w).dirs
+                                &&& (final(w).inodes[f.ino()].atime == old(w).inodes[f.ino()].atime || final(w).inodes[f.ino()].atime >= old(w).inodes[f.ino()].mtime)
+                                &&& final(w).inodes == old(w).inodes.insert(f.ino(), Inode { atime: final(w).inodes[f.ino()].atime, ..old(w).inodes[f.ino()] })
+                            }
+                        },
+                        Err(e) => {
+                            &&& final(w).same_fs(*old(w))
+                            &&& (absent_err(e) ==> !old(w).files.contains_key(pv(p)))
+                            &&& final(w).hard_faults == old(w).hard_faults + if absent_err(e) { 0nat } else { 1nat }
+                        },
                     },
             {
                 unimplemented!()
@@ -1464,7 +1640,7 @@ pub mod std {
             requires
                 old(w).inv(),
                 old(w).owned.contains(pv(to)) && !old(w).in_cache_namespace(pv(to)) && !old(w).under_ro(pv(to)) && !(pv(to).len() > 0 && old(w).under_ro(parent(pv(to))))
-                    && !old(w).files.contains_key(pv(to)) && !old(w).dirs.contains(pv(to)),   // @L C01 C03 C19 C15:bytes-are-never-streamed-into-a-visible-name
+                    && !old(w).files.contains_key(pv(to)) && !old(w).dirs.contains(pv(to)),   // @L C01 C03 C19 C15 C02:bytes-are-never-streamed-into-a-visible-name
             ensures
                 final(w).inv(),
                 final(w).kept(*old(w)) && final(w).listed == old(w).listed && final(w).published == old(w).published && final(w).now == old(w).now,
